@@ -342,6 +342,13 @@ def check_foreign_inputs(s, rule="C14.11"):
     for exc, sup in ASARRAY_RAISES.items():
         s.ob(rule, f"try_cast[{exc}]", bool(covered & sup), f"a value jnp.asarray rejects with {exc} is reported as not castable (None), not raised", loc, key=f"foreign-{exc}",
              detail=f"handled: {sorted(covered)}", necessary_for="foreign types and too-large indices are rejected: contains(x) answers with a scalar boolean")
+    # ... and it reports "not castable" for nothing else: every value jnp.asarray accepts comes back as that array (a dtype test here -
+    # "numbers only" - turns the Boolean arrays MultiBinary samples, and canonical() returns, into non-members of their own space)
+    in_handler = {id(n) for t in tries for h in t.handlers for n in _ast.walk(h)}
+    stray = [f"line {r.lineno}: {_ast.unparse(r)}" for r in _ast.walk(fn) if isinstance(r, _ast.Return) and id(r) not in in_handler
+             and (r.value is None or (isinstance(r.value, _ast.Constant) and r.value.value is None))]
+    s.ob(rule, "try_cast", not stray, "a value that jnp.asarray accepts is never reported as not castable (None is returned from the exception handlers only)", loc,
+         key="cast-rejects-castable", detail="; ".join(stray), necessary_for="sample() and canonical() always return members (Boolean arrays for MultiBinary included)")
     self_ = ("param", "self")
     for cls in KINDS:
         ci, dc, fn_c = s.method(cls, "contains")
